@@ -146,7 +146,7 @@ def S_MetadataResponse : Ty :=
   (.cons "Brokers" (-32768) none none .none (.arr .normal (.struct false (some 9) (.cons "NodeID" (-32768) none none .none (.prim .int32)
   (.cons "Host" (-32768) none none .none (.str .str)
   (.cons "Port" (-32768) none none .none (.prim .int32)
-  (.cons "Rack" 2 none none .none (.str (.nstr (-32768)))
+  (.cons "Rack" 1 none none .none (.str (.nstr (-32768)))
   Fields.nil))))))
   (.cons "ClusterID" 2 none none .none (.str (.nstr (-32768)))
   (.cons "ControllerID" 1 none none (.int (-1)) (.prim .int32)
